@@ -610,7 +610,7 @@ def baseline_job(case):
     out.update(fields=fields, fails=fails, stats=series_stats(T), term=bcase_term(case, fields, k_mad), gates=[])
     rows_term = coq_hrows([(o, p, False) for o, p in case["rows"]])
     thr = case.get("thresholds")
-    for j in range(1 if len(case["rows"]) > 150 or thr else 2):
+    for j in range(len(thr) if thr else 1 if len(case["rows"]) > 150 else 2):
         if thr:
             tcv, tpn = thr[j % len(thr)]
         else:
@@ -672,33 +672,27 @@ def stream_baseline(run, cases):
                               case={"stream": "gate", "case": dict(case, thresholds=[[g["tcv"], g["tpn"]]])}, observation=g["acc"],
                               expected=g["want"], generator="c16.gen_series")
             gates.append((g["term"], case, g))
-    for name, lst, shard in (("baseline", small, 130), ("baseline_long", long_, 3)):
-        if not lst:
-            continue
-        bad = run.coq_cases(name, IMPORTS, "", [t[0] for t in lst], "check_baseline", shard=shard, timeout=600)
-        if bad is None:
-            run.proof_ok = False
-            continue
-        for i in bad[:6]:
-            report_mismatch(run, name, "baseline_bad", lst[i][0], lst[i][1], lst[i][2])
-        for i in bad[6:]:
-            run.corr_failures.append({"stream": name, "case": lst[i][1]})
     g_small = [g for g in gates if len(g[1]["rows"]) <= 150]
     g_long = [g for g in gates if len(g[1]["rows"]) > 150]
-    if g_small:
-        bad = run.coq_cases("gate", IMPORTS, "", [t[0] for t in g_small], "check_gate", shard=260, timeout=600)
+    # the four groups are evaluated concurrently (each call shards its cases over up to 12 coqc processes)
+    import concurrent.futures as cf
+    groups = [("baseline", small, "check_baseline", 130), ("baseline_long", long_, "check_baseline", 3),
+              ("gate", g_small, "check_gate", 260), ("gate_long", g_long, "check_gate", 4)]
+    groups = [g for g in groups if g[1]]
+    with cf.ThreadPoolExecutor(max_workers=4) as ex:
+        bads = list(ex.map(lambda g: run.coq_cases(g[0], IMPORTS, "", [t[0] for t in g[1]], g[2], shard=g[3], timeout=600), groups))
+    for (name, lst, fn, _), bad in zip(groups, bads):
         if bad is None:
             run.proof_ok = False
+            continue
+        if fn == "check_baseline":
+            for i in bad[:6]:
+                report_mismatch(run, name, "baseline_bad", lst[i][0], lst[i][1], lst[i][2])
+            for i in bad[6:]:
+                run.corr_failures.append({"stream": name, "case": lst[i][1]})
         else:
             for i in bad[:10]:
-                run.corr_failures.append({"stream": "gate", "case": g_small[i][1], "impl": {k: g_small[i][2][k] for k in ("tcv", "tpn", "acc")}})
-    if g_long:
-        bad = run.coq_cases("gate_long", IMPORTS, "", [t[0] for t in g_long], "check_gate", shard=4, timeout=600)
-        if bad is None:
-            run.proof_ok = False
-        else:
-            for i in bad[:10]:
-                run.corr_failures.append({"stream": "gate_long", "case": g_long[i][1], "impl": {k: g_long[i][2][k] for k in ("tcv", "tpn", "acc")}})
+                run.corr_failures.append({"stream": name, "case": lst[i][1], "impl": {k: lst[i][2][k] for k in ("tcv", "tpn", "acc")}})
 
 
 # ------------------------------------------------------------------ stubbed fits
@@ -846,8 +840,18 @@ def stream_hourly_stub(run, cases):
 
 
 def gen_daily(rng, k):
-    kinds = ["usage", "usage", "negative", "zero_mean", "constant_obs", "perfect", "ties"]
+    kinds = ["usage", "usage", "negative", "zero_mean", "constant_obs", "perfect", "ties", "tie_at_threshold"]
     kind = kinds[k % len(kinds)]
+    if kind == "tie_at_threshold":
+        # residuals of constant size a over observations of mean M: CVRMSE = a / M exactly, threshold set to it
+        n1, n2 = rng.choice([2, 5, 20]), rng.choice([1, 3, 30])
+        n = n1 + n2
+        a, M = rng.choice([(1, 4), (1, 2), (3, 8), (2, 2), (5, 16)])
+        half = [rng.randint(0, M - 1) for _ in range(n // 2)]
+        obs = [M + h for h in half] + [M - h for h in half] + ([M] if n % 2 else [])
+        rng.shuffle(obs)
+        return {"kind": kind, "den": 1, "resid": [rng.choice([a, -a]) for _ in range(n)], "obs": obs, "split": n1,
+                "thr": a / M, "billing": rng.random() < 0.3}
     K = rng.choice([0, 2, 6])
     den = 2 ** K
     n1, n2 = rng.choice([2, 5, 20, 60, 200]), rng.choice([1, 3, 30, 165])
@@ -941,7 +945,8 @@ def oracle_daily(case, obs):
     thr = Fr(case["thr"])
     if mean != 0:
         exceeds = mean > 0 and mse / (mean * mean) > thr * thr
-        near = abs(float(fsqrt(mse / (mean * mean))) - float(thr)) <= 1e-12 * max(1.0, float(thr))
+        exact_tie = mse / (mean * mean) == thr * thr          # CVRMSE equals the threshold exactly: does not exceed it
+        near = not exact_tie and abs(float(fsqrt(mse / (mean * mean))) - float(thr)) <= 1e-12 * max(1.0, float(thr))
         if not near and obs["dq"] != exceeds:
             fails.append(({"defect": "poor-fit verdict differs from the statement", "call": "DailyModel.fit", "cause": "gate logic",
                            "verdict": "disqualified" if obs["dq"] else "acceptable"},
@@ -1162,7 +1167,8 @@ def daily_fit_job(args):
                                                                           rtol=1e-12, atol=0))}
 
 
-def stream_fits(run, hjobs=None, djobs=None):
+def start_fits(run, hjobs=None, djobs=None):
+    """submit the real fits to the worker pool; they run while the other streams are processed"""
     hv = ["plain", "netmeter", "ghi", "plain"]
     dv = ["plain", "netmeter", "noisy"]
     if hjobs is None:
@@ -1172,8 +1178,11 @@ def stream_fits(run, hjobs=None, djobs=None):
     import multiprocessing as mp
     if _POOL[0] is None:
         _POOL[0] = mp.get_context("fork").Pool(int(os.environ.get("C16_PROCS", "10")))
-    ha = _POOL[0].map_async(hourly_fit_job, hjobs, chunksize=1)
-    da = _POOL[0].map_async(daily_fit_job, djobs, chunksize=1)
+    return (_POOL[0].map_async(hourly_fit_job, hjobs, chunksize=1), _POOL[0].map_async(daily_fit_job, djobs, chunksize=1))
+
+
+def stream_fits(run, hjobs=None, djobs=None, handles=None):
+    ha, da = handles or start_fits(run, hjobs, djobs)
     hres, dres = ha.get(1500), da.get(1500)
     hl = []
     for r in hres:
@@ -1268,7 +1277,7 @@ def main():
     ]
     run.cov["trusted_base"] += ["harness/c16.py (generators, adapters, canonicalisation, Textbook oracle in Python fractions)",
                                 "pandas / numpy semantics (isfinite filter, var(ddof=0), quantile 'linear', corr, autocorr) re-specified in Model/Metrics.v"]
-    run.check_proofs("Properties/C16.v", ["Proofs/MetricsProofs.v"])
+    run.check_proofs("Properties/C16.v", ["Proofs/MetricsProofs.v", "Proofs/MetricsRealProofs.v"])
     run.ensure_models(["Model/MetricsRun.v", "Model/CasesLib.v"])
     pol, wit = probe_policy()
     run.cov["division_policy"] = {"modelled_as": pol, "witnesses": {"_safe_divide(-5,-1)": wit[0], "_safe_divide(-5,0.0005)": wit[1],
@@ -1294,15 +1303,28 @@ def main():
             c["seed"] = rng.randrange(2 ** 62)
             out.append(c)
         return out
-    stream_baseline(run, list(corpus.get("baseline", [])) + series(cnt(run, 1300, 60000)))
+    def batches(total, size=3000):
+        while total > 0:
+            yield min(size, total)
+            total -= size
+    handles = start_fits(run) if run.quick() else None
+    first = True
+    for b in batches(cnt(run, 1300, 24000)):
+        stream_baseline(run, (list(corpus.get("baseline", [])) if first else []) + series(b))
+        first = False
     phase(run, "baseline + gate done")
-    stream_hourly_stub(run, list(corpus.get("hourly_stub", [])) + series(cnt(run, 220, 6000)))
+    first = True
+    for b in batches(cnt(run, 220, 3000)):
+        stream_hourly_stub(run, (list(corpus.get("hourly_stub", [])) if first else []) + series(b))
+        first = False
     phase(run, "hourly stub done")
-    stream_daily_stub(run, list(corpus.get("daily_stub", [])) + [gen_daily(rng, k) for k in range(cnt(run, 220, 6000))])
+    for b in batches(cnt(run, 220, 3000)):
+        stream_daily_stub(run, [gen_daily(rng, k) for k in range(b)])
     phase(run, "daily stub done")
-    stream_reporting(run, series(cnt(run, 200, 5000)))
+    for b in batches(cnt(run, 200, 3000)):
+        stream_reporting(run, series(b))
     phase(run, "reporting done")
-    stream_fits(run)
+    stream_fits(run, handles=handles)
     phase(run, "fits done")
     run.finish()
 
